@@ -35,6 +35,8 @@ func ParserLanguage() []*Grammar {
 		{"P-nullchain", "s = a X ; a = b ; b = c ; c = C | @empty", "accept"},
 		{"P-palin", "s = A s A | B", "accept"},
 		{"P-paren", "s = e ; e = LP e RP | NUM", "accept"},
+		{"P-transnull", "d = m LET ID t SEMI ; m = P? S? ; t = END m", "accept"},
+		{"P-transnull2", "d = w X w ; w = v ; v = u ; u = Y? Z*", "accept"},
 		{"P-adjlists", "s = A+ B* C", "accept"},
 		{"P-adjlists2", "s = x+ y* Z ; x = A ; y = B", "accept"},
 		{"P-adjlists3", "s = g B* D ; g = LB @list(A,COMMA) RB", "accept"},
@@ -47,6 +49,18 @@ func ParserLanguage() []*Grammar {
 		g.Expect = s[2]
 		out = append(out, g)
 	}
+	// a state with 36 look-aheads, tokens declared in reverse alphabetical order
+	wide := "s = w* ; w = "
+	for i := 35; i >= 0; i-- {
+		if i < 35 {
+			wide += " | "
+		}
+		wide += "T" + string(rune('A'+i/6)) + string(rune('A'+i%6))
+	}
+	w := MustGrammar("P-wide", wide)
+	w.Expect = "accept"
+	w.MaxN = 1
+	out = append(out, w)
 	return out
 }
 
@@ -141,6 +155,9 @@ func ParserRecovery() []*Grammar {
 		{"E-listsep", "s = @list(x,COMMA) ; x = A | @error"},
 		{"E-startonly", "s = @error"},
 		{"E-after", "s = A b ; b = B | @error C"},
+		{"E-list2", "p = st* ; st = A SEMI | @error SEMI"},
+		{"E-list3", "p = st* ; st = A | @error SEMI"},
+		{"E-call", "s = LB st* RB ; st = c SEMI | @error SEMI ; c = ID LP a? RP ; a = NUM"},
 		{"E-merged-eof", "s = TA aa TX | TB aa ; aa = TC | @error"},
 		{"E-merged-eof2", "s = TA aa | TB aa TY ; aa = @error"},
 		{"E-merged3", "s = TA aa TX | TB aa TY | TC aa ; aa = bb ; bb = TD | @error"},
@@ -184,6 +201,8 @@ func LexGreedy() []*LexSpec {
 		{"L-esc", "A = '\\n'\nB = '\\t\\\\'\nC = [\\n\\-\\\\]+\nD = '\\x41\\u00e9'"},
 		{"L-dashcls", "A = [a\\-z]+\nB = [b-y]"},
 		{"L-tri", "K = 'e'\nX = [a-f]+\nY = [c-z]+"},
+		{"L-quad", "WIDE = [a-z] '1'\nMID = [d-f] '2'\nTAIL = [g-z] '3'\nINNER = [m-p] '4'"},
+		{"L-nested", "W = [a-zc]+\nN = [0-95]+\nS = ~[a-z0-9 q]"},
 		{"L-tri2", "X = [a-m]\nY = [h-z]\nZ = [j-k]+ 'x'"},
 		{"L-loopstart", "A = 'x'* 'y'\nB = 'z'"},
 		{"L-loopstart2", "A = ('a'|'b')* 'c'"},
@@ -209,6 +228,7 @@ func LexModes() []*LexSpec {
 		{"L-act3-epp", "A = 'a' @push_mode(X)\nEX = 'x'\n@mode X {\nB = 'b'\n@frag '!' @emit(EX) @pop_mode @push_mode(Y)\n}\n@mode Y {\nC = 'c' @pop_mode\nD = 'd'\n}"},
 		{"L-act3-dpush2", "A = 'a'\n@frag '!' @discard @push_mode(X) @push_mode(Y)\n@mode X {\nB = 'b' @pop_mode\n}\n@mode Y {\nC = 'c' @pop_mode\n}"},
 		{"L-act3-tok", "A = 'a' @push_mode(X) @push_mode(Y) @pop_mode\n@mode X {\nB = 'b' @pop_mode\n}\n@mode Y {\nC = 'c' @pop_mode\n}"},
+		{"L-mode-empty", "ID = [g-z]+\n@mode Common {\n@macro HEX = [0-9a-f]\n}\nOP = '(' @push_mode(Paren)\n@mode Paren {\nCP = ')' @pop_mode\nHN = HEX+\n}\n@mode Str {\nSC = [a-z]+\nSQ = '\"' @pop_mode\n}\nQ = '\"' @push_mode(Str)"},
 		{"L-acc", "@frag '\\'' @push_mode(Lit)\nID = [a-z]+\n@mode Lit {\nLITERAL = '\\'' @pop_mode\n@frag '\\\\' [\\\\'n]\n@frag ~[\\\\\\n']\n}"},
 	})
 }
@@ -234,6 +254,16 @@ func LexNonGreedyOverlap() []*LexSpec {
 	return lexItems([][2]string{
 		{"L-ngov", "C = '/*' .*? '*/'\nD = '/' '*'+"},
 	}, "overlap")
+}
+
+// LexExotic: items whose run-time meaning the documentation does not define
+// (escapes above U+10FFFF); used for termination only.
+func LexExotic() []*LexSpec {
+	return lexItems([][2]string{
+		{"L-bigescape", "W = [a-z\\UFFFFFFFF]+\n@frag [ ]+ @discard"},
+		{"L-bigescape2", "W = 'a' [\\U80000000]* 'b'\nX = 'x'"},
+		{"L-bigliteral", "W = 'a\\UFFFFFFFF'\nX = 'a'"},
+	}, "exotic")
 }
 
 // LexAccount: extra items for C11 (nullable rules, accumulating fragments).
